@@ -771,3 +771,35 @@ def case_reshape_matmul_reshape():
 
 
 CASES["reshape_matmul_reshape"] = case_reshape_matmul_reshape
+
+
+def case_cast_constant_of_shape():
+    import warnings
+    import onnx_ir as ir
+    from onnxscript.rewriter.rules.common import _cast_constant_of_shape as R
+    bad = 0
+    for val, vt, to in ((300, np.int64, TensorProto.INT8), (-1, np.int64, TensorProto.UINT8), (70000, np.int32, TensorProto.INT16), (2.7, np.float32, TensorProto.INT64),
+                        (-2.7, np.float32, TensorProto.INT32), (1e10, np.float32, TensorProto.FLOAT16), (3.0, np.float32, TensorProto.BOOL), (16777217, np.int64, TensorProto.FLOAT)):
+        t = numpy_helper.from_array(np.array([val], dtype=vt), "v")
+        g = helper.make_graph([helper.make_node("ConstantOfShape", ["s"], ["c"], value=t), helper.make_node("Cast", ["c"], ["y"], to=to)], "g",
+                              [vi("s", TensorProto.INT64, [1])], [vi("y", to, None)])
+        m = helper.make_model(g, opset_imports=[helper.make_opsetid("", 18)], ir_version=9)
+        f = {"s": np.array([2], np.int64)}
+        with warnings.catch_warnings():
+            warnings.simplefilter("ignore")
+            a = np.asarray(run(m, f)[0])
+            mm = ir.serde.deserialize_model(m)
+            try:
+                n = R.rules.apply_to_model(mm)
+                b = np.asarray(run(ir.serde.serialize_model(mm), f)[0])
+            except Exception as e:  # noqa: BLE001
+                print(f"Cast(ConstantOfShape(value={vt.__name__} {val}), to={TensorProto.DataType.Name(to)}): the rewriter raises {type(e).__name__}: {str(e)[:100]} (the original yields {a.tolist()})")
+                bad += 1
+                continue
+        if a.dtype != b.dtype or not np.array_equal(a, b, equal_nan=True):
+            print(f"Cast(ConstantOfShape(value={vt.__name__} {val}), to={TensorProto.DataType.Name(to)}): original {a.tolist()} ({a.dtype}) rewritten {b.tolist()} ({b.dtype})")
+            bad += 1
+    return bad
+
+
+CASES["cast_constant_of_shape"] = case_cast_constant_of_shape
